@@ -3,7 +3,7 @@ from tools.extract import Unit, Rw
 from tools.krun import Harness
 
 PROPERTY = "C19"
-PRELUDE = ["../common/base.rs", "../common/io.rs", "prelude.rs", "cache_io.rs"]
+PRELUDE = ["../common/base.rs", "../common/io.rs", "prelude.rs", "cache_io.rs", "cache_write.rs"]
 CA = "crates/core/src/backend/cache.rs"
 BE = "crates/core/src/backend.rs"
 R_LOG = Rw("", "", count=None, kind="log", why="logging removed")
@@ -159,9 +159,44 @@ UNITS += [
 """),
 ]
 
+WW = dict(wrap_open="impl CacheW {", wrap_close="}")
+UNITS += [
+    # Cache::write_bytes: the entry appears under its real name only complete (written under a temporary name, then renamed)
+    Unit(name="cache_write_bytes", file=CA, anchor="pub fn write_bytes(&self, tpe: FileType, id: &Id, content: &BytesList) -> RusticResult<()>", within="impl Cache {", ret_name="r", **WW,
+         functions=["backend::cache::Cache::write_bytes"],
+         rewrites=[R_LOG, R_ERR, R_MAPERR,
+                   Rw("content: &BytesList) -> RusticResult<()>", "content: &BytesList, vfs: &mut VFsW) -> RusticResult<()>", sig=True, why="ghost parameter: the cache directory as a map from names to bytes"),
+                   Rw(r"fn write_local_file\(filename: &Path, mut reader: impl Read\) -> RusticResult<\(\)> \{.*?\n            Ok\(\(\)\)\n        \}\n", "", regex=True,
+                      why="ELIDED: nested helper write_local_file (OpenOptions create+truncate+write, io::copy) -> stub vwrite_local_file"),
+                   Rw("fs::create_dir_all(&dir)", "vfs.create_dir_all(&dir)", why="std::fs::create_dir_all -> ghost file-system stub"),
+                   Rw(r"dir\.join\(id\.to_hex\(\)\.to_string\(\) \+ \"-tmp-\"\)", "vtmp_name(&dir, id)", regex=True, why="temporary file name (string building) -> stub: a name that is no entry name"),
+                   Rw(r"write_local_file\(&(?P<n>\w+), content\.clone\(\)\.reader\(\)\)", r"vfs.vwrite_local_file(&\g<n>, content)", regex=True, why="write_local_file -> stub: complete on success, anything under THAT name on failure"),
+                   Rw(r"fs::remove_file\(&(?P<n>\w+)\)", r"vfs.remove_file(&\g<n>)", regex=True, count=None, why="std::fs::remove_file -> ghost file-system stub"),
+                   Rw(r"fs::rename\(&(?P<a>\w+), &(?P<b>\w+)\)", r"vfs.rename(&\g<a>, &\g<b>)", regex=True, why="std::fs::rename -> ghost file-system stub (atomic replace: ASSUMED)"),
+         ],
+         contract="""
+    ensures
+        /*@written_entry_is_complete*/ r is Ok ==> final(vfs).files@.dom().contains(PKey::Entry((tpe, *id))) && final(vfs).files@[PKey::Entry((tpe, *id))] == content.data@,
+        // a failed write never leaves a partial file under the entry's real name: the entry is as it was
+        /*@failed_write_leaves_no_partial_entry*/ r is Err ==> (final(vfs).files@.dom().contains(PKey::Entry((tpe, *id))) == old(vfs).files@.dom().contains(PKey::Entry((tpe, *id)))
+            && (old(vfs).files@.dom().contains(PKey::Entry((tpe, *id))) ==> final(vfs).files@[PKey::Entry((tpe, *id))] == old(vfs).files@[PKey::Entry((tpe, *id))])),
+        /*@other_entries_untouched_by_write*/ other_entries_untouched(old(vfs).files@, final(vfs).files@, (tpe, *id)),
+"""),
+    Unit(name="cache_remove", file=CA, anchor="pub fn remove(&self, tpe: FileType, id: &Id) -> RusticResult<()>", within="impl Cache {", ret_name="r", **WW,
+         functions=["backend::cache::Cache::remove"],
+         rewrites=[R_LOG, R_ERR, R_MAPERR,
+                   Rw("id: &Id) -> RusticResult<()>", "id: &Id, vfs: &mut VFsW) -> RusticResult<()>", sig=True, why="ghost parameter: the cache directory"),
+                   Rw(r"fs::remove_file\(&(?P<n>\w+)\)", r"vfs.remove_file(&\g<n>)", regex=True, why="std::fs::remove_file -> ghost file-system stub")],
+         contract="""
+    ensures
+        /*@removed_entry_is_gone*/ r is Ok ==> !final(vfs).files@.dom().contains(PKey::Entry((tpe, *id))),
+        /*@other_entries_untouched_by_remove*/ other_entries_untouched(old(vfs).files@, final(vfs).files@, (tpe, *id)),
+"""),
+]
+
 META = {"not_covered": [
     "the statement's quantifier: histories through a cached and an uncached handle, stale/truncated/foreign files planted in the cache directory -- only the single-call building blocks are decided here",
-    "Cache itself (file-system code): tmp+rename writes, list_with_size (directory walk), remove -- stubs with map semantics; read_full / read_partial ARE units over the std::io model (File::open/seek/read_exact assumed), remove_not_in_list IS a unit",
+    "Cache::list_with_size (directory walk, iterator chain) -- stub with map semantics; Cache::new (directory creation, CACHEDIR.TAG); read_full / read_partial ARE units over the std::io model (File::open/seek/read_exact assumed), write_bytes / remove ARE units over a ghost file system (rename atomic, nested write helper elided), remove_not_in_list IS a unit",
     "a cached file with foreign bytes of the right size under a valid id (outside the content-addressing hypothesis; nothing re-hashes cached files)",
     "reads of a file that only the cache still has (between two listings): the cached handle answers, an uncached one fails",
     "pass-through methods location / needs_warm_up / warm_up / warmup_path / create (one delegating call each)",
